@@ -273,7 +273,7 @@ def replay_file(pid: str, path: str) -> tuple[str, object]:
 def run_check(pid: str, tier: str, seed: int, shards: int | None = None) -> int:
     t0 = time.time()
     mod = load_prop(pid)
-    budget = mod.BUDGET[tier]
+    budget = int(os.environ.get("VERIF_BUDGET") or mod.BUDGET[tier])  # VERIF_BUDGET: smoke-test a tier with fewer cases
     n_shards = shards or int(os.environ.get("VERIF_SHARDS", "16"))
     per = max(1, budget // n_shards)
     shrink_calls = int(os.environ.get("VERIF_SHRINK_CALLS", "400" if tier == "quick" else "3000"))
